@@ -3,8 +3,9 @@ import json
 import os
 
 from engine import rule, AnchorLost, VERIF
-from model import Super, PathSens, fn_of, trace, is_place, site, const_value
+from model import enum_edge, Super, PathSens, fn_of, trace, is_place, site, const_value
 import common
+import vocab
 
 # Disagreements that were read and judged equivalent (not findings), one reason each.
 REVIEWED_EQUIVALENT = {
@@ -23,18 +24,17 @@ def _arms(lib, ep):
         if t["k"] != "switch":
             continue
         for s in b.blocks[n[1]]["stmts"]:
-            if s["k"] == "assign" and s["rv"]["k"] == "discr" and "Input<" in s["rv"]["p"]["ty"]:
-                adt = None
-                for p, a in lib.adts.items():
-                    if a["crate"] == "xt" and a["kind"] == "enum" and {v["name"] for v in a["variants"]} == {"Slice", "Reader"} and s["rv"]["p"]["ty"].startswith(p):
-                        adt = a
+            iv = vocab.lib_vocab(lib.facts)["input"]
+            if s["k"] == "assign" and s["rv"]["k"] == "discr" and vocab.ty_is(s["rv"]["p"]["ty"], iv):
+                adt = lib.adts.get(iv["path"])
                 if not adt:
                     continue
                 edges = {}
                 for v in adt["variants"]:
-                    tg = [x for vv, x in t["targets"] if vv == v["idx"]]
-                    if tg:
-                        edges[v["name"]] = (n, v["idx"], ((), tg[0]))
+                    e = enum_edge(b, n[1], v["idx"])
+                    if e:
+                        # labelled by role, whatever the variants are called in the source
+                        edges["Slice" if v["name"] == iv["mem"] else "Reader"] = (n, e[1], ((), e[2]))
                 if len(edges) == 2:
                     return sup, edges
     return sup, None
